@@ -164,6 +164,7 @@ type Outcome struct {
 	Assume     []string
 	Start      time.Time
 	VerifDir   string
+	Verbose    bool
 }
 
 // Merge adds the obligations of one report (one build configuration).
@@ -220,6 +221,9 @@ func (o *Outcome) Finish(findings []Finding) int {
 		case VOK:
 			okc++
 			distinct[ob.Key()] = true
+			if o.Verbose {
+				lines = append(lines, fmt.Sprintf("ok        %s %s [%s] %s", ob.Rule, ob.Construct, ob.Pos, ob.Detail))
+			}
 		case VInfo:
 			info++
 			lines = append(lines, fmt.Sprintf("info      %s %s [%s] %s", ob.Rule, ob.Construct, ob.Pos, ob.Detail))
